@@ -116,13 +116,22 @@ def run_budget(at, cnt, prob, seed, crash_at=None, via_project=False):
 
 
 def calib_problem(at, model="udt"):
+    """A calibration problem that is not already solved at the start: the library databooks mostly hold first-year data (which the
+    initialisation reproduces), so two later data points, a few percent off the uncalibrated model, are added to every target."""
     P = at.demo(model, do_run=False)
     ps = P.parsets[0]
-    pop = ps.pop_names[0]
-    pars = [p for p in P.framework.pars.index if P.framework.pars.at[p, "format"] in ("probability", "rate") and p in ps.pars][:2]
-    charac = [c for c in list(P.framework.characs.index) + list(P.framework.comps.index) if P.data.get_ts(c, pop) is not None and P.data.get_ts(c, pop).has_time_data][:2]
-    adjustables = [(p, pop, 0.5, 2.0) for p in pars]
-    measurables = [(c, pop, 1.0, "fractional") for c in charac]
+    pops = list(ps.pop_names)
+    pars = [p for p in P.framework.pars.index if P.framework.pars.at[p, "format"] in ("probability", "rate", "number") and p in ps.pars and P.framework.transitions.get(p)][:2]
+    targets = [c for c in list(P.framework.characs.index) + list(P.framework.comps.index) if P.data.get_ts(c, pops[0]) is not None and P.data.get_ts(c, pops[0]).has_data][:2]
+    adjustables = [(p, pop, 0.5, 1.5) for p in pars for pop in pops]
+    measurables = [(c, pop, 1.0, "fractional") for c in targets for pop in pops]
+    res = P.run_sim(parset=ps, store_results=False)
+    t0 = float(P.settings.sim_start)
+    for i, (var, pop, _, _) in enumerate(measurables):
+        out = res.model.get_pop(pop).get_variable(var)[0]
+        ts = P.data.tdve[var].ts[pop]
+        for year, factor in ((t0 + 3.0, 1.04 - 0.03 * i), (t0 + 4.0, 0.97 + 0.02 * i)):
+            ts.insert(year, float(np.interp(year, out.t, out.vals)) * factor)
     return P, ps, adjustables, measurables
 
 
@@ -156,7 +165,7 @@ def run(prop, tier):
         problems = [dict(model="udt", pops=None, single_year=False), dict(model="udt", pops=["adults"], single_year=True)]
         if thorough:
             problems += [dict(model="hiv", pops=None, single_year=False), dict(model="tb_simple", pops=None, single_year=True)]
-        seeds = [1, 2, 3] if thorough else [1, 2]
+        seeds = [1, 2, 3, 4, 5, 6] if thorough else [1, 2, 3]
         for pb in problems:
             for via_project in (False, True):
                 for seed in (seeds if not via_project else seeds[:1]):
@@ -192,7 +201,7 @@ def run(prop, tier):
         for seed in seeds:
             P, ps, adjustables, measurables = calib_problem(at)
             label = dict(kind="calibration", entry="Project.calibrate", seed=seed)
-            for maxiters in ([3, 12] if not thorough else [1, 2, 3, 6, 12, 25]):
+            for maxiters in ([1, 2, 3, 4, 6, 12] if not thorough else [1, 2, 3, 4, 5, 6, 8, 12, 25]):
                 before = caller_digest(P, ps, None, None)
                 cnt.n = 0
                 newps = P.calibrate(parset=ps, adjustables=[a for a in adjustables], measurables=[m for m in measurables], max_time=30, maxiters=maxiters, randseed=seed)
